@@ -219,7 +219,7 @@ func (h *hist) actAuthorize(t *rapid.T) {
 			a.PublicKey = s.M.Devices[rapid.SampledFrom(others).Draw(t, "reuseFrom")].PublicKey
 			h.f.conflictForeignKey = true
 		} else {
-			field = rapid.SampledFrom([]string{"PublicKey", "Latitude", "Latitude-ulp", "Latitude-signzero", "Longitude", "Capacity", "Debt", "Expiration", "Initialization", "ProtocolFee"}).Draw(t, "field")
+			field = rapid.SampledFrom([]string{"PublicKey", "Latitude", "Latitude-ulp", "Latitude-signzero", "Longitude", "Capacity", "Debt", "Expiration", "Initialization", "ProtocolFee", "Signature-only"}).Draw(t, "field")
 			switch field {
 			case "PublicKey":
 				a.PublicKey = h.freshAuth(t, id).PublicKey
@@ -260,6 +260,15 @@ func (h *hist) actAuthorize(t *rapid.T) {
 			}
 		}
 		h.signGCA(&a)
+		if field == "Signature-only" {
+			// same content, a second valid GCA signature (another nonce): not the
+			// identical authorization, so it is a conflict like any other
+			sig, ok := ref.SignWithNonce(s.gca, a.SigningBytes(), rapid.SliceOfN(rapid.Byte(), 4, 4).Draw(t, "nonce"))
+			if !ok || sig == s.M.Devices[id].Sig {
+				t.Skip("no second signature with this nonce")
+			}
+			a.Sig = sig
+		}
 		multi := len(live) >= 2
 		if out := s.authorize(a, "conflict:"+field); out != ref.AuthConflict {
 			s.fail("harness: conflicting authorization (%s) was %v", field, out)
